@@ -510,9 +510,15 @@ GUARD_PARAM = [
 ]
 
 
-def lock_class(origin):
+TYPE_CLASSES = [(r"IngredientShard", "INTERN"), (r"HashTable<function::sync::SyncState>", "SYNC"), (r"DependencyGraph", "DG")]
+
+
+def lock_class(origin, ty=""):
     for rx, c in LOCK_CLASSES:
         if re.search(rx, origin):
+            return c
+    for rx, c in TYPE_CLASSES:
+        if re.search(rx, ty):
             return c
     return None
 
@@ -525,7 +531,7 @@ def compute_lock_graph(cx):
     for b in facts.all_bodies():
         d = set()
         for s in b.calls(r"Mutex::<R, T>::lock$|RawMutex::lock$|lock_api::RawMutex::lock$"):
-            c = lock_class(cx.arg(s, 0))
+            c = lock_class(cx.arg(s, 0), (s.node().get("atys") or [""])[0])
             d.add(c or "?" + cx.arg(s, 0)[-40:])
         direct[b.path] = d
         blocks[b.path] = bool(b.calls(r"Condvar::wait$|EdgeCondvar::wait$"))
@@ -565,7 +571,7 @@ def c16_1(cx):
     for b in facts.all_bodies():
         regions = []
         for s in b.calls(r"Mutex::<R, T>::lock$"):
-            c = lock_class(cx.arg(s, 0))
+            c = lock_class(cx.arg(s, 0), (s.node().get("atys") or [""])[0])
             nlocks += 1
             if c is None:
                 cx.check(False, "lock site with unknown lock class", s, {"arg": cx.arg(s, 0)[-80:]}, key="unknown-lock " + b.path)
